@@ -90,5 +90,19 @@ func c07(r *h.Result, rng *h.Rng, tier string, replay string) error {
 	if tier != "quick" {
 		m = 5000
 	}
-	return c07Sem(r, rng.Fork(), m)
+	if err := c07Sem(r, rng.Fork(), m); err != nil {
+		return err
+	}
+	nx := 500
+	if tier != "quick" {
+		nx = 10000
+	}
+	if err := c07TextX(r, rng.Fork(), nx); err != nil {
+		return err
+	}
+	mx := 400
+	if tier != "quick" {
+		mx = 6000
+	}
+	return c07SemX(r, rng.Fork(), mx)
 }
